@@ -821,7 +821,8 @@ def check_cc_redefine(case, ctx):
             if op['op'] != 'set_force' and shared.k0 is not None:
                 # also series orders and prescribed amplitudes: while matrices exist calc_kT / calc_fint skip _rebuild() altogether
                 stale_matrices = True
-            if op['op'] in CC_DERIVED and used:
+            if op['op'] in CC_DERIVED + ('set_mn',) and used:
+                # set_mn: the filled-in Nxxtop keeps the length 2*n2+1 of the earlier n2 (IndexError / wrong load in calc_fext)
                 derived_dirty = True
             hist.append(op['op'])
             continue
@@ -880,7 +881,7 @@ def _cc_set_op(draw, case):
         names.append('set_angle')
     if case.get('free_only'):
         # two thirds of the cases: only re-definitions that no listed finding covers (strict throughout), plus the edge stiffnesses
-        names = ['set_edge', 'set_mn', 'set_force', 'set_thetaT']
+        names = ['set_edge', 'set_force', 'set_thetaT']
     o = draw(st.sampled_from(names))
     op = {'op': o, 'value': round(draw(gen.fl(-1., 1.)), 3), 'in_place': draw(st.booleans()), 'ply': draw(st.integers(0, 5)),
           'which': draw(st.integers(0, 1))}
